@@ -147,6 +147,13 @@ def _ranged_domain():
                         return Ranged(None)
                     lo, hi = (None, o) if last in ('minimum', 'fmin') else (o, None)
                     return self._clip(x, lo, hi, kwargs.get('out'))
+                if last in ('putmask', 'place') and len(args) == 3 and isinstance(a0, Ranged):
+                    # in place: a[mask] = value
+                    self.store_subscript(a0, args[1], args[2], node)
+                    return Const(None)
+                if last == 'copyto' and len(args) == 2 and isinstance(a0, Ranged) and 'where' in kwargs:
+                    self.store_subscript(a0, kwargs['where'], args[1], node)
+                    return Const(None)
                 if last == 'where' and len(args) == 3 and isinstance(args[0], MaskV):
                     m, yes, no = args
                     if isinstance(no, Ranged) and m.arr is no and not isinstance(yes, Ranged):
